@@ -259,6 +259,8 @@ func run(r *vk.Runner) {
 	// ---------- accepting side: every generated program compiles and links ----------
 	all := gj5s.AllContractCases(!r.Quick())
 	all = append(all, gj5s.RuleCases()...)
+	all = append(all, gj5s.OddNameCases()...)
+	all = append(all, gj5s.PipelineCases()...)
 	for _, c := range all {
 		c := c
 		if r.Stopped() {
